@@ -26,9 +26,12 @@ FieldOk == {"f_local", "f_attr", "f_index", "f_call", "f_percent",
             "f_global",             \* a module global: a value that is NOT among the variables of the collected frame
             "f_neq", "f_colon",     \* expressions that hold '!' or ':' outside brackets (a != 9, a lambda, a slice
                                      \* in a call, a dict display): the field is the WHOLE text between the braces
+            "f_braces",             \* an expression that holds braces itself (a set display inside a call): the field ends
+                                     \* at ITS closing brace
             "f_zero", "f_empty"}     \* fields whose value is falsy (0, the empty string): still values, rendered as text
             \* f_percent: the value text holds "%s"
-FieldBad == {"f_missing", "f_raises"}
+FieldBad == {"f_missing", "f_raises",
+             "f_badconv"}   \* `{a!x}`: not an expression, and a conversion string.Formatter refuses only while it FORMATS
 Tokens == Lits \cup Braces \cup FieldOk \cup FieldBad
 
 VARIABLES tpl,      \* the template (token sequence)
